@@ -2,12 +2,15 @@ import RosuModel.Model.GradualWire
 import RosuModel.Model.BuilderWire
 import RosuModel.Model.Convert
 import RosuModel.Model.DecodeWire
+import RosuModel.Model.TaikoTicksWire
 import RosuModel.Model.DetWire
 import RosuModel.Model.AttrsWire
 import RosuModel.Model.ModsWire
 import RosuModel.Model.StrainsWire
 import RosuModel.Model.GenStateWire
 import RosuModel.Model.SafetyWire
+import RosuModel.Model.LifeWire
+import RosuModel.Model.FiniteWire
 
 open Rosu
 
@@ -27,6 +30,7 @@ def handle (line : String) : String :=
   | ["C2P", total] => Decode.handleC2P total
   | ["C2PSET", total, xs] => Decode.handleC2PSet total xs
   | ["TCOL", keys, rcs, rod, count, len] => Decode.handleTargetColumns keys rcs rod count len
+  | ["TTICKS", v, sm, tr, dbl, dsv, tps, dps, sl] => TaikoTicks.handleTTicks v sm tr dbl dsv tps dps sl
   | ["BPM", last, tps] => DetWire.handleBpm last tps
   | ["OSU", seed, ops] => DetWire.handleOsu seed ops
   | ["CS", seed, ops] => DetWire.handleCs seed ops
@@ -46,6 +50,9 @@ def handle (line : String) : String :=
   | ["BAN", g, s, e, fuel] => Safety.Wire.handleBAN g s e fuel
   | ["BANX", s, e] => Safety.Wire.handleBANX s e
   | ["TKH", p, q, d] => Safety.Wire.handleTKH p q d
+  | ["LIFE", mode, objs, sig, hist] => Lifetime.handleLife mode objs sig hist
+  | "GSQ" :: mode :: args => GenState.handleGSQ mode args
+  | "C09" :: args => Finite.handleFinite args
   | _ => "bad-op"
 
 partial def loop (h : IO.FS.Stream) (out : IO.FS.Stream) : IO Unit := do
